@@ -226,6 +226,8 @@ PROPS["C11"] = {
 }
 
 PROPS["C09"]["components"].append(Sched("trans", 3000, 150000, exhaustive_limit=3000, conformance="tr-trans", pb1=((40, 1500), (400, 40000))))
+PROPS["C11"]["components"].append(Sched("trans", 1500, 60000, label="sched-trans-override", only="C11:", pb1=((40, 1500), (400, 40000))))
+PROPS["C11"]["rule"] += " trans (schedules): a transition racing a live change of an override flag (ForceOpen on, ForcedClosed on, overrides off) must behave as under the old or the new setting: never a second Opened for an open circuit, never a Closed for a closed one."
 PROPS["C09"]["rule"] += " trans: 2-4 threads among OpenCircuit / CloseCircuit / failing call (opener says open) / succeeding probe (closer admits and says close) race from a closed or open circuit under the cooperative scheduler; quiescent monitor: alternation and IsOpen = last notification."
 PROPS["C09"]["trusted_base"] = TB_CIRCUIT + TB_SCHED
 
